@@ -174,7 +174,8 @@ def run(ctx, R):
     for f, node, anc in sites:
         verdict, consumer = classify(C, node, anc)
         recv = node.get("recv") if node.get("k") == "mcall" else (node["args"][0] if node.get("args") else {})
-        key = "%s/%s/%s->%s" % (f.get("name"), ekey(recv), node.get("name"), consumer if verdict != "escapes" else "escapes")
+        # a renamed / moved function keeps the name it had in the reference tree (facts.Crate.renamed_from), so its audit entry holds
+        key = "%s/%s/%s->%s" % (C.renamed_from(f).rsplit("::", 1)[-1], ekey(recv), node.get("name"), consumer if verdict != "escapes" else "escapes")
         where = C.loc(node["sp"])
         if verdict == "ok":
             R.ok("r2", key, {"consumer": consumer, "at": where})
